@@ -1,4 +1,4 @@
-"""C10 - CPMC step: fast updates, one-body half step, step structure.
+"""C10 - CPMC step: fast updates, one-body half step, HS constants, step structure.
 
 (1) fast update identities (Q domain), uhf_cpmc and ghf_cpmc, EVERY ordered pair of spin-orbitals (same spin i != j, opposite spin
     any i, j), symbolic walker / trial / update constants:  calc_overlap_ratio(G, pair, c) * <psi|phi> = <psi|phi'>  and
@@ -9,6 +9,17 @@
     Cholesky-derived normal-ordering and mean-field one-body shifts.)
 (3) Hubbard-Stratonovich constants of init_prop_data: (1/2) sum_sigma B_sigma = exp(-dt U n_up n_dn) on every site occupation, from the
     contracts of exp / acosh only.
+(4) step structure (Q domain): propagate() of the fast and the slow propagators is executed once per auxiliary-field configuration
+    sigma (every outcome of the `rns < prob_0` comparisons is forced in turn by a comparison oracle; the thresholds `< 1e-8`, `> 100`
+    are decided "not active" and all decisions are kept as the path condition).  With P(sigma) the product of the probabilities the
+    CODE compares its uniform numbers against,
+        sum_sigma P(sigma) w'_sigma |phi'_sigma> / <psi_T|phi'_sigma>_cached  =  w exp(dt E_shift) 2^-n sum_sigma |A D_sigma A phi> / <psi_T|phi>
+    as Fock-space vectors, for symbolic walker, trial, half-step matrix A, HS constants, weight and shift; D_sigma is the diagonal
+    scaling the HS constants define (which (3) relates to exp(-dt U n n)); and fast = slow on every configuration (walkers, weights,
+    overlaps, selection probabilities).  On the real code (validation, replay) the configuration is forced through the random
+    numbers (gaussian +-40 for the on-site propagators; for the neighbour propagators jax.random inside ad_afqmc.propagation is
+    replaced, during the call only, by a stub that hands out the numbers the harness stored in prop_data['key']), and P(sigma) is
+    MEASURED by bisection on the uniform number at which the real code changes branch.
 """
 import itertools
 from fractions import Fraction
@@ -120,6 +131,701 @@ class FastUpdate(engine.Case):
             for idx in np.ndindex(G1.shape):
                 rels.append((f"green{tag}{list(idx)}", G1[idx], G2[idx]))
         return rels
+
+
+class _FakeRandom:
+    """environment stub (A3) for `jax.random` as ad_afqmc.propagation sees it while Step.call runs a neighbour propagator: the 'key' IS
+    the flat array of uniform numbers stored by the harness; split hands it on unchanged, uniform() returns the slice that belongs to
+    the requested shape ((n_walkers, norb) on-site numbers first, then the (n_walkers, 4, n_bonds) neighbour numbers)."""
+
+    def __init__(self, norb, real):
+        self.norb, self._real = norb, real
+
+    def split(self, key, num=2):
+        return key, key
+
+    def uniform(self, key, shape=(), **kw):
+        n = int(np.prod(shape))
+        off = 0 if len(shape) == 2 else self.norb
+        return key[off:off + n].reshape(shape)
+
+    def __getattr__(self, k):
+        return getattr(self._real, k)
+
+
+class StepConc(engine.ConcV):
+    """seeded exact rationals in ranges where no constraint is active (positive walkers / trial / constants, half-step matrix near 1)"""
+
+    def r(self, name):
+        if name not in self.values and not self.fixed:
+            rr = self.rng
+            if name.startswith("a"):
+                d = name.split("_")[1]
+                v = Fraction(rr.randint(7, 10), 10) if d[-1] == d[-2] else Fraction(rr.randint(1, 3), 10)
+            elif name == "w":
+                v = Fraction(rr.randint(2, 5), 8)
+            elif name in ("Es", "Ee"):
+                v = Fraction(rr.randint(-3, 3), 2)
+            elif name.startswith("hs"):
+                v = Fraction(rr.randint(6, 14), 10)
+            else:
+                v = Fraction(rr.randint(2, 6), rr.choice((3, 4, 5)))
+            self.values[name] = v
+        return super().r(name)
+
+
+class Step(engine.Case):
+    """see (4) in the module docstring.  Symbolic stage = inductive decomposition: at every iteration of the field scans (and after the
+    last one) the carried state is REPLACED by an arbitrary valid state (fresh symbolic walker and weight; Green's function and cached
+    overlap recomputed from scratch by the code's own calc_full_green / calc_overlap), and the obligations of each segment are
+      first  : walkers = A phi, greens / overlap coherent with them, w1/ov1 = w/ov0
+      field  : walkers' = D^s walkers, greens' = calc_full_green(walkers'), overlap' = calc_overlap(walkers'), and
+               sum_s P_s w'_s |W'_s>/ov'_s = (w/ov) (1/2^k) sum_s |D^s W>   (k = 1 on-site, 4 fields of one bond)
+      last   : walkers = A W, overlap / greens coherent, w'/ov' = w exp(dt E_shift)/ov
+    which compose (linearity, induction over the segments) to the whole-step identity for every configuration.  The concrete
+    pre-screen and the float replay evaluate the WHOLE step without cuts (all 2^n configurations of the real propagate())."""
+    check_id = "C10"
+    holo = False
+    n_validate = 1
+    tol = 1e-6
+    validate_tol = 1e-7
+    n_prescreen = int(__import__("os").environ.get("VERIF_STEP_PRESCREEN", "2"))  # 0: debugging the symbolic stage on its own
+
+    def __init__(self, args):
+        self.args = args
+        self.family = args.get("family", "onsite")  # onsite: propagator_cpmc(+_slow); nn: propagator_cpmc_nn(+_slow)
+        self.kindname = args.get("kind", "uhf_cpmc")
+        self.norb, self.nelec = args["norb"], tuple(args["nelec"])
+        self.neighbors = tuple(tuple(b) for b in args.get("neighbors", ())) if self.family == "nn" else ()
+        self.opt = args.get("opt", {})
+        n, nb = self.norb, len(self.neighbors)
+        self.nf = n + 4 * nb
+        self.nseg = n + nb + 1  # cut points: every scan iteration and the state after the last one
+        self.nscans = 2 if self.family == "nn" else 1
+        self.configs = list(itertools.product((0, 1), repeat=self.nf))
+        if self.family == "onsite":
+            sel = [(0,) * self.nf, (1,) * self.nf]
+        else:
+            sel = [(cb[0],) * n + cb * nb for cb in itertools.product((0, 1), repeat=4)]
+        self.sel = [self.configs.index(c) for c in sel]
+        self.name = (f"step:{self.family}:{self.kindname}:{cm.shape_tag(self.norb, self.nelec)}" + (f":bonds={list(self.neighbors)}" if self.neighbors else "")
+                     + ("".join(f":{k}" for k in sorted(self.opt)) if self.opt else ""))
+        self.timeout_s = 300
+        from ad_afqmc import wavefunctions, propagation
+        self.trial = getattr(wavefunctions, self.kindname)(self.norb, self.nelec)
+        if self.family == "onsite":
+            self.props = [propagation.propagator_cpmc(dt=0.01, n_walkers=1), propagation.propagator_cpmc_slow(dt=0.01, n_walkers=1)]
+        else:
+            self.props = [propagation.propagator_cpmc_nn(dt=0.01, n_walkers=1, neighbors=self.neighbors),
+                          propagation.propagator_cpmc_nn_slow(dt=0.01, n_walkers=1, neighbors=self.neighbors)]
+        self.impls = ("fast", "slow")
+        self._log, self._mask_k, self._rec, self._aux, self._labels_seen = [], 0, {}, None, []
+        self.stage = "validate"
+
+    def functions(self):
+        names = [type(p).__name__ for p in self.props]
+        k = self.kindname
+        return [f"ad_afqmc.propagation.{n}.propagate" for n in names] + ["ad_afqmc.propagation.propagator_cpmc.propagate_one_body",
+                f"ad_afqmc.wavefunctions.{k}.calc_overlap_ratio", f"ad_afqmc.wavefunctions.{k}.update_greens_function",
+                f"ad_afqmc.wavefunctions.{k}.calc_full_green", f"ad_afqmc.wavefunctions.{k}._calc_overlap"]
+
+    def conc(self, seed):
+        return StepConc(seed)
+
+    def _trial_inputs(self, V):
+        n = self.norb
+        if self.kindname == "uhf_cpmc":
+            if self.opt.get("ident"):
+                return {"Cu": cm.ident_cols(V, n, self.nelec[0]), "Cd": cm.ident_cols(V, n, self.nelec[1])}
+            if self.opt.get("ctrial"):
+                # a fixed generic (non-uniform density) trial in exact rationals: the claim is then "for this trial, every walker / constant"
+                import random
+                rr = random.Random(77 + int(self.opt["ctrial"]))
+                mk = lambda sh: arr(sh, lambda i: V.k(Fraction(rr.randint(1, 5), rr.choice((2, 3)))))
+                return {"Cu": mk((n, self.nelec[0])), "Cd": mk((n, self.nelec[1]))}
+            return {"Cu": cm.real_mat(V, "cu", (n, self.nelec[0])), "Cd": cm.real_mat(V, "cd", (n, self.nelec[1]))}
+        return {"C": cm.KGHF.params(V, n, self.nelec, {"ident": 1} if self.opt.get("ident", 1) else {})["C"]}
+
+    def inputs(self, V):
+        n = self.norb
+        d = {"Wu": cm.real_mat(V, "wu", (n, self.nelec[0])), "Wd": cm.real_mat(V, "wd", (n, self.nelec[1])),
+             "A": arr((2, n, n), lambda i: V.r(f"a{i[0]}_{i[1]}{i[2]}")),
+             "hs": arr((2, 2), lambda i: V.r(f"hs_{i[0]}{i[1]}")), "w": arr((), lambda i: V.r("w")),
+             "Es": arr((), lambda i: V.r("Es")), "Ee": arr((), lambda i: V.r("Ee"))}
+        if self.family == "nn":
+            if self.opt.get("chs"):
+                # neighbour HS constants as an exact rational instance of const * [[e^g, e^-g], [e^-g, e^g]] (the claim is then per instance)
+                k_, g_ = [(Fraction(9, 10), Fraction(3, 2)), (Fraction(4, 5), Fraction(5, 3))][int(self.opt["chs"]) - 1]
+                tab = [[k_ * g_, k_ / g_], [k_ / g_, k_ * g_]]
+                d["hsn"] = arr((2, 2), lambda i: V.k(tab[i[0]][i[1]]))
+            else:
+                d["hsn"] = arr((2, 2), lambda i: V.r(f"hsn_{i[0]}{i[1]}"))
+        d.update(self._trial_inputs(V))
+        # the arbitrary valid states of the cut points (used by the symbolic stage only)
+        d["Su"] = arr((self.nseg, n, self.nelec[0]), lambda i: V.r(f"su{i[0]}_{i[1]}{i[2]}"))
+        d["Sd"] = arr((self.nseg, n, self.nelec[1]), lambda i: V.r(f"sd{i[0]}_{i[1]}{i[2]}"))
+        d["Sw"] = arr((self.nseg,), lambda i: V.r(f"sw{i[0]}"))
+        return d
+
+    # ---- running the real propagators on one forced configuration -----------------------------------------------------------
+    def _wave_data(self, kw):
+        return {"mo_coeff": [kw["Cu"], kw["Cd"]]} if self.kindname == "uhf_cpmc" else {"mo_coeff": kw["C"]}
+
+    def _rn(self, u):
+        """the random-number argument that makes the real code see the uniform numbers u (0.0 / 1.0 exactly, or floats)"""
+        import jax.numpy as jnp
+        u = np.asarray(u, dtype=float)
+        if self.family == "onsite":
+            from scipy.special import ndtri
+            g = np.where(u <= 0.0, -40.0, np.where(u >= 1.0, 40.0, ndtri(np.clip(u, 1e-300, 1.0))))
+            return jnp.asarray(g)[None, :]
+        n, nb = self.norb, len(self.neighbors)
+        flat = np.concatenate([u[:n], u[n:].reshape(nb, 4).T.reshape(-1)])  # (4, nb) layout of uniform_rns_1[0]
+        return jnp.asarray(flat)
+
+    def _step(self, kw, prop, rn):
+        import jax.numpy as jnp
+        t = self.trial
+        wd = self._wave_data(kw)
+        W = [kw["Wu"][None], kw["Wd"][None]]
+        pd = {"walkers": W, "weights": kw["w"][None], "overlaps": t.calc_overlap(W, wd).real, "greens": t.calc_full_green_vmap(W, wd),
+              "pop_control_ene_shift": kw["Es"], "e_estimate": kw["Ee"]}
+        hd = {"exp_h1": kw["A"]}
+        if self.family == "onsite":
+            pd["hs_constant"] = kw["hs"]
+            pd["key"] = jnp.zeros((2,), dtype=jnp.uint32)
+            g = rn
+        else:
+            pd["hs_constant_onsite"], pd["hs_constant_nn"] = kw["hs"], kw["hsn"]
+            pd["key"] = rn
+            g = jnp.zeros((1, self.norb))
+        pd = prop.propagate(t, hd, pd, g, wd)
+        return pd["walkers"][0][0], pd["walkers"][1][0], pd["weights"][0], pd["overlaps"][0], pd["greens"][0]
+
+    def _patched(self):
+        import contextlib
+        from ad_afqmc import propagation
+
+        @contextlib.contextmanager
+        def cm_():
+            if self.family != "nn":
+                yield
+                return
+            real = propagation.random
+            propagation.random = _FakeRandom(self.norb, real)
+            try:
+                yield
+            finally:
+                propagation.random = real
+        return cm_()
+
+    def call(self, **kw):
+        import jax.numpy as jnp
+        outs = []
+        with self._patched():
+            for cfg in self.configs:
+                rn = self._rn(cfg)
+                for prop in self.props:
+                    outs.append(self._step(kw, prop, rn))
+        return outs, jnp.exp(self.props[0].dt * kw["Es"])
+
+    # ---- interpretation: forced branch decisions and inductive cut points ----------------------------------------------------
+    def _aux_eval(self, inp, Wu, Wd):
+        """the code's own from-scratch Green's function and overlap of a walker (interpreted)"""
+        import jax
+        import jax.numpy as jnp
+        from vf import jx, stubs
+        tn = [k for k in ("Cu", "Cd", "C") if k in inp]
+        if self._aux is None:
+            t = self.trial
+
+            def f(Wu_, Wd_, *C):
+                wd = self._wave_data(dict(zip(tn, C)))
+                W = [Wu_[None], Wd_[None]]
+                return t.calc_full_green_vmap(W, wd), t.calc_overlap(W, wd).real
+            ex = [jnp.zeros(np.asarray(x).shape) for x in (Wu, Wd)] + [jnp.zeros(np.asarray(inp[k]).shape) for k in tn]
+            with stubs.installed(**self.stubs):
+                self._aux = jax.make_jaxpr(f)(*ex)
+        it = jx.Interp()
+        G_, ov = it.run(self._aux, [Wu, Wd] + [inp[k] for k in tn])
+        return G_, ov
+
+    def _slots(self, e, dims):
+        nc, ncar = dims
+        avals = [v.aval for v in e.invars[nc:nc + ncar]]
+        n = self.norb
+        wu = [k for k, a in enumerate(avals) if tuple(a.shape) == (1, n, self.nelec[0]) and np.issubdtype(a.dtype, np.floating)]
+        wdn = [k for k, a in enumerate(avals) if tuple(a.shape) == (1, n, self.nelec[1]) and np.issubdtype(a.dtype, np.floating)]
+        if not wu or not wdn:
+            return None
+        gshape = (1, 2, n, n) if self.kindname == "uhf_cpmc" else (1, 2 * n, 2 * n)
+        g = [k for k, a in enumerate(avals) if tuple(a.shape) == gshape]
+        one = [k for k, a in enumerate(avals) if tuple(a.shape) == (1,) and np.issubdtype(a.dtype, np.floating)]
+        both = sorted(set(wu) | set(wdn))
+        assert len(both) == 2 and len(g) <= 1 and len(one) == 2, ("carry layout of the field scan not recognised", [(tuple(a.shape), str(a.dtype)) for a in avals])
+        return {"Wu": both[0], "Wd": both[1], "G": g[0] if g else None, "ov": one[0], "w": one[1]}  # dict keys are flattened in sorted order: overlaps < walkers < weights
+
+    def prepare_interp(self, it, inp):
+        self._log, self._mask_k, self._rec = [], 0, {}
+        ni, nf = len(self.props), self.nf
+
+        def oracle(op, x, y):
+            thr = y.isconst() and float(y.c[0]) in (1.0e-8, 100.0)
+            if x.isconst() and y.isconst():
+                d = bool(qdom.compare(op, x, y))
+            elif thr:
+                d = False  # "no constraint is active": kept as a path condition
+            else:
+                k = self._mask_k
+                d = self.configs[k // (ni * nf)][k % nf] == 0
+            if not thr:
+                self._mask_k += 1
+            self._log.append(("thr" if thr else "mask", op, x, y, d))
+            return d
+        it.cmp_oracle = oracle
+        if self.stage != "symbolic":
+            return
+        st = {"scan_no": -1}
+        n = self.norb
+        conc = {}
+
+        def fresh(seg, selected):
+            if selected:
+                Wu, Wd, w = inp["Su"][seg], inp["Sd"][seg], inp["Sw"][seg]
+            else:  # a run that is not needed for any obligation: a fixed concrete valid state keeps it cheap
+                if seg not in conc:
+                    V = StepConc(4242 + seg)
+                    conc[seg] = (cm.real_mat(V, "wu", (n, self.nelec[0])), cm.real_mat(V, "wd", (n, self.nelec[1])), V.r("w"))
+                Wu, Wd, w = conc[seg]
+            G_, ov = self._aux_eval(inp, Wu, Wd)
+            return {"Wu": Wu, "Wd": Wd, "G": G_[0], "ov": ov[0], "w": w}
+
+        def state_of(carry, sl):
+            return {"Wu": carry[sl["Wu"]][0], "Wd": carry[sl["Wd"]][0], "G": carry[sl["G"]][0] if sl["G"] is not None else None,
+                    "ov": carry[sl["ov"]][0], "w": carry[sl["w"]][0]}
+
+        def put(carry, sl, s_):
+            carry = list(carry)
+            for k in ("Wu", "Wd", "G"):
+                if sl[k] is not None:
+                    carry[sl[k]] = np.asarray(s_[k], dtype=object)[None]
+            for k in ("ov", "w"):
+                o = obj((1,))
+                o[0] = s_[k]
+                carry[sl[k]] = o
+            return carry
+
+        def hook(e, when, t, carry, dims):
+            sl = self._slots(e, dims)
+            if sl is None:
+                return None
+            L = e.params["length"]
+            if when == "before" and t == 0:
+                st["scan_no"] += 1
+            run, which = divmod(st["scan_no"], self.nscans)
+            c, m = divmod(run, ni)
+            selected = c in self.sel
+            seg = t if which == 0 else n + t
+            rec = self._rec.setdefault((c, m), {})
+            if when == "before":
+                if which == 0 and t == 0:
+                    rec["pre"] = state_of(carry, sl)
+                s_ = fresh(seg, selected)
+                rec[("in", seg)] = s_
+                st["cur"] = (c, m, seg, which, t, s_, selected)
+                st["j"] = 0
+                return put(carry, sl, s_)
+            rec[("out", seg)] = state_of(carry, sl)
+            if which == self.nscans - 1 and t == L - 1:
+                s_ = fresh(self.nseg - 1, selected)
+                rec[("in", self.nseg - 1)] = s_
+                return put(carry, sl, s_)
+            return None
+        it.scan_hook = hook
+
+        def greens_hook(e, ins, outs):
+            """after every incremental update the Green's function is replaced by the from-scratch one of the walker reached so far
+            (the equality of the two is the obligation `greens-update`), so that the next field starts from an un-nested state"""
+            if "cur" not in st or outs[0] is None:
+                return None
+            c, m, seg, which, t, s_, selected = st["cur"]
+            j = st["j"]
+            st["j"] += 1
+            cfg = self.configs[c]
+            lo = t if which == 0 else n + 4 * t
+            part = tuple(cfg[x] if lo <= x <= lo + j else None for x in range(nf))
+            du, dd = self._scalings(inp, part, Q(1))
+            Wu, Wd = self._rows(du, s_["Wu"]), self._rows(dd, s_["Wd"])
+            G_, _ = self._aux_eval(inp, Wu, Wd)
+            if selected:
+                self._rec[(c, m)].setdefault("updates", []).append((seg, j, outs[0], G_))
+            return [G_]
+        it.call_hooks["update_greens_function_vmap"] = greens_hook
+
+    def pre(self, inp):
+        out = []
+        for kind, op, x, y, d in self._log:
+            if x.isconst() and y.isconst():
+                continue
+            c = qdom.compare(op, x, y)
+            e = c.e if hasattr(c, "e") else z3.BoolVal(bool(c))
+            out.append(e if d else z3.Not(e))
+        return out
+
+    # ---- the oracle ------------------------------------------------------------------------------------------------------------------
+    def _scalings(self, inp, cfg, one):
+        """diagonal scalings (up, down) of the fields in cfg (None = field not applied), as the HS constants define them"""
+        n = self.norb
+        du, dd = [one] * n, [one] * n
+        hs = inp["hs"]
+        for x in range(n):
+            f = cfg[x]
+            if f is None:
+                continue
+            du[x] = du[x] * hs[f, 0]
+            dd[x] = dd[x] * hs[f, 1]
+        for b, (i, j) in enumerate(self.neighbors):
+            hn = inp["hsn"]
+            tgt = ((du, i, du, j), (du, i, dd, j), (dd, i, du, j), (dd, i, dd, j))  # up-up, up-dn, dn-up, dn-dn
+            for k, (v1, p1, v2, p2) in enumerate(tgt):
+                f = cfg[n + 4 * b + k]
+                if f is None:
+                    continue
+                v1[p1] = v1[p1] * hn[f, 0]
+                v2[p2] = v2[p2] * hn[f, 1]
+        return du, dd
+
+    @staticmethod
+    def _rows(d, W):
+        o = obj(W.shape)
+        for p_ in range(W.shape[0]):
+            for k in range(W.shape[1]):
+                o[p_, k] = d[p_] * W[p_, k]
+        return o
+
+    def _trial_state(self, inp, one):
+        from vf import fock
+        if self.kindname == "uhf_cpmc":
+            return fock.slater(self.norb, inp["Cu"], inp["Cd"], one)
+        return fock.slater_general(2 * self.norb, inp["C"], one)
+
+    def relations(self, inp, out):
+        outs, expE = out
+        sample = outs[0][2]
+        sample = sample[()] if isinstance(sample, np.ndarray) else sample
+        if isinstance(sample, Q) and self.stage == "symbolic":
+            rels = self._rel_cut(inp, out)
+        else:
+            rels = self._rel_whole(inp, out, isinstance(sample, Q))
+        if isinstance(sample, Q):
+            self._labels_seen = [r[0] for r in rels]
+        return rels
+
+    def _masks_by_run(self):
+        masks = [t for t in self._log if t[0] == "mask"]
+        ni, nf = len(self.props), self.nf
+        assert len(masks) == len(self.configs) * ni * nf, ("number of branch decisions", len(masks), len(self.configs), ni, nf)
+        return {(c, m): masks[(c * ni + m) * nf:(c * ni + m + 1) * nf] for c in range(len(self.configs)) for m in range(ni)}
+
+    def _rel_whole(self, inp, out, exact):
+        """the whole step, all configurations: exact rationals (pre-screen; P from the code's own comparisons) or floats (replay; P measured)"""
+        from vf import fock
+        outs, expE = out
+        n, nf, ni = self.norb, self.nf, len(self.props)
+        expE = expE[()] if isinstance(expE, np.ndarray) else expE
+        one = Q(1) if exact else 1.0
+        if exact:
+            if any(kind == "thr" and d for kind, op, x, y, d in self._log):
+                return []  # a concrete instance on which a constraint is active: outside the claim
+            mk = self._masks_by_run()
+            prob = {}
+            for (c, m), ms in mk.items():
+                cfg = self.configs[c]
+                P_ = one
+                for f in range(nf):
+                    assert ms[f][4] == (cfg[f] == 0), "a concrete instance did not follow the forced configuration"
+                    P_ = P_ * (ms[f][3] if cfg[f] == 0 else (one - ms[f][3]))
+                prob[(c, m)] = P_
+        else:
+            real_ = np.vectorize(lambda z: complex(z).real, otypes=[object])
+            inp = {k: real_(v) for k, v in inp.items()}
+            expE = complex(expE).real
+            if not self._inactive(inp, expE):
+                return []
+            prob = self._measure(inp)
+            outs = [tuple(real_(np.asarray(o, dtype=object)) for o in tup) for tup in outs]
+        A, Wu, Wd = inp["A"], inp["Wu"], inp["Wd"]
+        AWu, AWd = cm.matmul(A[0], Wu), cm.matmul(A[1], Wd)
+        psi = self._trial_state(inp, one)
+        ov0 = fock.inner(psi, fock.slater(n, Wu, Wd, one), zero=one * 0)
+        acc = {}
+        for cfg in self.configs:
+            du, dd = self._scalings(inp, cfg, one)
+            acc = fock.add_states(acc, fock.slater(n, cm.matmul(A[0], self._rows(du, AWu)), cm.matmul(A[1], self._rows(dd, AWd)), one))
+        wE = inp["w"][()] * expE * (Fraction(1, 2 ** nf) if exact else 1.0 / 2 ** nf)
+        rels = []
+        for m, impl in enumerate(self.impls):
+            lhs = {}
+            for c, cfg in enumerate(self.configs):
+                Wu1, Wd1, w1, ov1 = outs[c * ni + m][:4]
+                coef = prob[(c, m)] * w1[()] / ov1[()]
+                lhs = fock.add_states(lhs, fock.scale(fock.slater(n, Wu1, Wd1, one), coef))
+            for key in sorted(set(lhs) | set(acc)):
+                rels.append((f"{impl}:unbiased[{key:0{2 * n}b}]", lhs.get(key, one * 0) * ov0, acc.get(key, one * 0) * wE))
+        for c, cfg in enumerate(self.configs):
+            tag = "".join(map(str, cfg))
+            f_, s_ = outs[c * ni + 0], outs[c * ni + 1]
+            for nm, a, b in (("walker_up", f_[0], s_[0]), ("walker_dn", f_[1], s_[1]), ("weight", f_[2], s_[2]), ("overlap", f_[3], s_[3])):
+                a, b = np.asarray(a, dtype=object), np.asarray(b, dtype=object)
+                for idx in np.ndindex(a.shape):
+                    rels.append((f"fast=slow:{nm}{list(idx) if idx else ''}@{tag}", a[idx], b[idx]))
+            rels.append((f"fast=slow:probability@{tag}", prob[(c, 0)], prob[(c, 1)]))
+        if not exact and self._labels_seen:
+            # a violation found on a segment of the symbolic stage is replayed as the whole-step identity: report the worst
+            # whole-step relation under the segment's label
+            def dev(t):
+                a, b = complex(t[1]), complex(t[2])
+                return abs(a - b) / max(abs(a), abs(b), 1.0)
+            worst = max(rels, key=dev)
+            have = {r[0] for r in rels}
+            rels = rels + [(lab, worst[1], worst[2]) for lab in self._labels_seen if lab not in have]
+        return rels
+
+    def _rel_cut(self, inp, out):
+        from vf import fock
+        outs, expE = out
+        expE = expE[()] if isinstance(expE, np.ndarray) else expE
+        n, nf, ni, nb = self.norb, self.nf, len(self.props), len(self.neighbors)
+        one = Q(1)
+        zero = one * 0
+        mk = self._masks_by_run()
+        psi = self._trial_state(inp, one)
+        A = inp["A"]
+        rels = []
+
+        def fv(Wu, Wd):
+            return fock.slater(n, Wu, Wd, one)
+
+        def sem_ov(Wu, Wd):
+            return fock.inner(psi, fv(Wu, Wd), zero=zero)
+
+        def eq_arr(label, a, b):
+            a, b = np.asarray(a, dtype=object), np.asarray(b, dtype=object)
+            assert a.shape == b.shape, (label, a.shape, b.shape)
+            for idx in np.ndindex(a.shape):
+                rels.append((f"{label}{list(idx) if idx else ''}", a[idx], b[idx]))
+
+        def coherent(label, st_, fast, Wu, Wd):
+            """the state st_ the code produced is the valid state of the walker (Wu, Wd)"""
+            eq_arr(f"{label}:walker_up", st_["Wu"], Wu)
+            eq_arr(f"{label}:walker_dn", st_["Wd"], Wd)
+            G_, ov = self._aux_eval(inp, Wu, Wd)
+            rels.append((f"{label}:overlap=calc_overlap(walker)", st_["ov"], ov[0]))
+            rels.append((f"{label}:overlap=<psi|phi>", st_["ov"], sem_ov(Wu, Wd)))
+            if fast:
+                eq_arr(f"{label}:greens=calc_full_green(walker)", st_["G"], G_[0])
+
+        def fock_sum(label, entry, terms, fields):
+            """sum_s P_s w'_s |W'_s>/ov'_s  =  (w/ov) 2^-k sum_s |D^s W>"""
+            if len(terms) > 2:
+                # the four fields of one bond: 16 rational terms with 16 different denominators do not fit the polynomial budget as ONE
+                # sum; since the walkers of the 16 outcomes are already proved to be D^s W, the sum identity follows from the
+                # term-by-term identity  P_s w'_s / ov'_s = (w/ov) / 16  (sufficient; a failure is replayed as the whole-step SUM
+                # identity on the real code, so an implementation that is unbiased only in the sum would not be reported)
+                for P_, ex, part in terms:
+                    tag = "".join(str(v) for v in part if v is not None)
+                    rels.append((f"{label}:coefficient@{tag}", P_ * ex["w"] * entry["ov"] * len(terms), entry["w"] * ex["ov"]))
+                return
+            lhs, rhs = {}, {}
+            for P_, ex, part in terms:
+                lhs = fock.add_states(lhs, fock.scale(fv(ex["Wu"], ex["Wd"]), P_ * ex["w"] / ex["ov"]))
+                du, dd = self._scalings(inp, part, one)
+                rhs = fock.add_states(rhs, fv(self._rows(du, entry["Wu"]), self._rows(dd, entry["Wd"])))
+            k_ = entry["w"] / entry["ov"] * Fraction(1, len(terms))
+            for key in sorted(set(lhs) | set(rhs)):
+                rels.append((f"{label}:unbiased[{key:0{2 * n}b}]", lhs.get(key, zero), rhs.get(key, zero) * k_))
+
+        c0 = self.sel[0]
+        per_impl = []
+        for m, impl in enumerate(self.impls):
+            fast = impl == "fast"
+            seen = {"impl": impl}
+            rec = self._rec[(c0, m)]
+            # first segment: one-body half step from the initial state
+            AWu, AWd = cm.matmul(A[0], inp["Wu"]), cm.matmul(A[1], inp["Wd"])
+            coherent(f"{impl}:first", rec["pre"], fast, AWu, AWd)
+            rels.append((f"{impl}:first:weight/overlap", rec["pre"]["w"] * sem_ov(inp["Wu"], inp["Wd"]), inp["w"][()] * rec["pre"]["ov"]))
+            seen["first"] = rec["pre"]
+            # on-site fields
+            for t in range(n):
+                terms = []
+                for s in (0, 1):
+                    c = next(c for c in self.sel if self.configs[c][t] == s)
+                    r_ = self._rec[(c, m)]
+                    entry, ex = r_[("in", t)], r_[("out", t)]
+                    part = tuple(s if x == t else None for x in range(nf))
+                    du, dd = self._scalings(inp, part, one)
+                    coherent(f"{impl}:site{t}:field{s}", ex, fast, self._rows(du, entry["Wu"]), self._rows(dd, entry["Wd"]))
+                    p0 = mk[(c, m)][t][3]
+                    terms.append((p0 if s == 0 else one - p0, ex, part))
+                    seen[("site", t, s)] = (ex, p0)
+                fock_sum(f"{impl}:site{t}", entry, terms, None)
+            # neighbour bonds: the four fields of one bond are one scan iteration
+            for b in range(nb):
+                terms = []
+                for cb in itertools.product((0, 1), repeat=4):
+                    c = next(c for c in self.sel if tuple(self.configs[c][n + 4 * b:n + 4 * b + 4]) == cb)
+                    r_ = self._rec[(c, m)]
+                    entry, ex = r_[("in", n + b)], r_[("out", n + b)]
+                    part = tuple(cb[x - n - 4 * b] if n + 4 * b <= x < n + 4 * b + 4 else None for x in range(nf))
+                    du, dd = self._scalings(inp, part, one)
+                    tag = "".join(map(str, cb))
+                    coherent(f"{impl}:bond{b}:fields{tag}", ex, fast, self._rows(du, entry["Wu"]), self._rows(dd, entry["Wd"]))
+                    P_ = one
+                    ps = []
+                    for k in range(4):
+                        p0 = mk[(c, m)][n + 4 * b + k][3]
+                        ps.append(p0)
+                        P_ = P_ * (p0 if cb[k] == 0 else one - p0)
+                    terms.append((P_, ex, part))
+                    seen[("bond", b, cb)] = (ex, ps)
+                fock_sum(f"{impl}:bond{b}", entry, terms, None)
+            # every incremental Green's function update against the from-scratch value (fast propagators)
+            for c in self.sel:
+                for seg, j, got, want in self._rec[(c, m)].get("updates", []):
+                    eq_arr(f"{impl}:greens-update:seg{seg}:substep{j}@{''.join(map(str, self.configs[c]))}", got, want)
+            # last segment: one-body half step, energy shift
+            entry = rec[("in", self.nseg - 1)]
+            Wu1, Wd1, w1, ov1, G1 = outs[c0 * ni + m]
+            fin = {"Wu": Wu1, "Wd": Wd1, "w": w1[()], "ov": ov1[()], "G": G1}
+            coherent(f"{impl}:last", fin, fast, cm.matmul(A[0], entry["Wu"]), cm.matmul(A[1], entry["Wd"]))
+            rels.append((f"{impl}:last:weight/overlap", fin["w"] * entry["ov"], entry["w"] * expE * fin["ov"]))
+            seen["last"] = fin
+            per_impl.append(seen)
+        # fast = slow, segment by segment from the same valid state
+        f_, s_ = per_impl
+        for key in f_:
+            if key == "impl":
+                continue
+            a, b = f_[key], s_[key]
+            tag = key if isinstance(key, str) else ":".join(map(str, key))
+            if isinstance(a, tuple):
+                (sa, pa), (sb, pb) = a, b
+                for k_, (x, y) in enumerate(zip(pa if isinstance(pa, list) else [pa], pb if isinstance(pb, list) else [pb])):
+                    rels.append((f"fast=slow:{tag}:probability{k_}", x, y))
+            else:
+                sa, sb = a, b
+            for nm in ("Wu", "Wd"):
+                eq_arr(f"fast=slow:{tag}:{nm}", sa[nm], sb[nm])
+            rels.append((f"fast=slow:{tag}:weight", sa["w"], sb["w"]))
+            rels.append((f"fast=slow:{tag}:overlap", sa["ov"], sb["ov"]))
+        return rels
+
+    # ---- float mode: precondition by definition, probabilities by measurement on the real code ------------------------------
+    def _ov(self, inp, Wu, Wd):
+        Wu, Wd = np.array(Wu, dtype=float), np.array(Wd, dtype=float)
+        if self.kindname == "uhf_cpmc":
+            return float(np.linalg.det(np.array(inp["Cu"], dtype=float).T @ Wu) * np.linalg.det(np.array(inp["Cd"], dtype=float).T @ Wd))
+        n = self.norb
+        W = np.zeros((2 * n, Wu.shape[1] + Wd.shape[1]))
+        W[:n, :Wu.shape[1]] = Wu
+        W[n:, Wu.shape[1]:] = Wd
+        return float(np.linalg.det(np.array(inp["C"], dtype=float).T @ W))
+
+    def _inactive(self, inp, expE, margin=4.0):
+        """no constraint is active on any configuration (thresholds by their definition, with a safety margin)"""
+        A = np.array(inp["A"], dtype=float)
+        Wu, Wd = np.array(inp["Wu"], dtype=float), np.array(inp["Wd"], dtype=float)
+        lo, hi = 1.0e-8 * margin, 100.0 / margin
+        o0 = self._ov(inp, Wu, Wd)
+        Wu, Wd = A[0] @ Wu, A[1] @ Wd
+        o1 = self._ov(inp, Wu, Wd)
+        if o0 == 0 or o1 == 0:
+            return False
+        w1 = float(inp["w"][()]) * o1 / o0
+        if not (np.isfinite(w1) and w1 >= lo):
+            return False
+        finp = {k: np.array(v, dtype=float) for k, v in inp.items() if k in ("hs", "hsn")}
+
+        def sc(part):
+            du, dd = self._scalings(finp, part, 1.0)
+            return np.array(du, dtype=float)[:, None], np.array(dd, dtype=float)[:, None]
+        for cfg in self.configs:
+            w = w1
+            for f in range(self.nf):
+                du, dd = sc(tuple(cfg[:f]) + (None,) * (self.nf - f))
+                base = self._ov(inp, du * Wu, dd * Wd)
+                r = []
+                for val in (0, 1):
+                    du, dd = sc(tuple(cfg[:f]) + (val,) + (None,) * (self.nf - f - 1))
+                    r.append(self._ov(inp, du * Wu, dd * Wd) / base if base != 0 else np.nan)
+                if not (np.isfinite(r[0]) and np.isfinite(r[1]) and r[0] >= lo and r[1] >= lo):
+                    return False
+                w *= (r[0] + r[1]) / 2.0
+            du, dd = sc(cfg)
+            Xu, Xd = du * Wu, dd * Wd
+            w2 = w * self._ov(inp, A[0] @ Xu, A[1] @ Xd) / self._ov(inp, Xu, Xd)
+            if not (np.isfinite(w2) and w2 >= lo and w2 * expE <= hi):
+                return False
+        return True
+
+    def _measure(self, inp):
+        """P(sigma) of the REAL code: for every prefix of decided fields, the uniform number at which the next field changes branch"""
+        import jax.numpy as jnp
+        kw = {k: jnp.asarray(np.array(v, dtype=float)) for k, v in inp.items()}
+        memo_key = tuple((k, tuple(np.array(v, dtype=float).reshape(-1))) for k, v in sorted(inp.items()) if not k.startswith("S"))
+        if getattr(self, "_measure_memo", (None, None))[0] == memo_key:
+            return self._measure_memo[1]
+        prob = {}
+        with self._patched():
+            for m, prop in enumerate(self.props):
+                cache = {}
+
+                import jax
+                stepj = jax.jit(lambda kw_, rn_, prop=prop: self._step(kw_, prop, rn_)[:3])
+
+                def run(u, stepj=stepj):
+                    o = stepj(kw, self._rn(u))
+                    return np.concatenate([np.asarray(o[0]).reshape(-1), np.asarray(o[1]).reshape(-1), np.asarray(o[2]).reshape(-1)])
+
+                def p_of(prefix):
+                    if prefix in cache:
+                        return cache[prefix]
+                    f = len(prefix)
+                    base = list(map(float, prefix)) + [0.0] * (self.nf - f)
+                    ref0 = run(base)
+                    b1 = list(base)
+                    b1[f] = 1.0
+                    ref1 = run(b1)
+                    if np.allclose(ref0, ref1, rtol=1e-13, atol=0):
+                        cache[prefix] = 0.5  # both branches coincide: the probability cannot matter
+                        return 0.5
+                    lo, hi = 0.0, 1.0
+                    for _ in range(40):
+                        mid = 0.5 * (lo + hi)
+                        b = list(base)
+                        b[f] = mid
+                        r = run(b)
+                        if np.abs(r - ref0).max() <= np.abs(r - ref1).max():
+                            lo = mid
+                        else:
+                            hi = mid
+                    cache[prefix] = 0.5 * (lo + hi)
+                    return cache[prefix]
+                for c, cfg in enumerate(self.configs):
+                    P_ = 1.0
+                    for f in range(self.nf):
+                        p0 = p_of(tuple(cfg[:f]))
+                        P_ *= p0 if cfg[f] == 0 else 1.0 - p0
+                    prob[(c, m)] = P_
+        self._measure_memo = (memo_key, prob)
+        return prob
+
+    def replay_variants(self, vals):
+        for k in range(3):
+            V = StepConc(991 + k)
+            self.inputs(V)
+            yield dict(V.values)
 
 
 class OneBody(engine_g.GCase):
@@ -275,6 +981,7 @@ def cases(tier):
         for ch in range(4):
             out.append({"type": "fast", "kind": "uhf_cpmc", "norb": 4, "nelec": [2, 2], "opt": {"ident": 1}, "chunk": ch, "nchunks": 4})
             out.append({"type": "fast", "kind": "uhf_cpmc", "norb": 3, "nelec": [2, 1], "opt": {}, "chunk": ch, "nchunks": 4})
+    out.append({"type": "step", "family": "onsite", "kind": "uhf_cpmc", "norb": 2, "nelec": [1, 1]})
     for prop in ("propagator_cpmc", "propagator_cpmc_nn"):
         out.append({"type": "onebody", "norb": 2, "nchol": 1, "prop": prop})
         out.append({"type": "hs", "prop": prop})
@@ -282,6 +989,8 @@ def cases(tier):
 
 
 def run(args, seed, known):
+    if args["type"] == "step":
+        return engine.run_case(Step(args), seed=seed, known=known)
     if args["type"] == "fast":
         return engine.run_case(FastUpdate(args), seed=seed, known=known)
     if args["type"] == "onebody":
@@ -291,6 +1000,10 @@ def run(args, seed, known):
 
 def replay(data):
     a = data["case_args"]
+    if a["type"] == "step":
+        case = Step(a)
+        case._labels_seen = [data["label"]]
+        return engine.replay_file(case, data)
     if a["type"] == "fast":
         return engine.replay_file(FastUpdate(a), data)
     if a["type"] == "onebody":
